@@ -87,6 +87,10 @@ func enumerateBase(r *core.Run, base Scenario, tags ...string) {
 	wo, _ := parseWop(op)
 	// quick tier: returned errors with same-handle follow-ups run on v1 and on the in-memory v2 back end (which
 	// only has this fault mode); the directory back end (fsync on every write) joins in the thorough tier
+	generated := false
+	for _, t := range tags {
+		generated = generated || t == "stream:structured"
+	}
 	sameOK := !wo.isImport() && wo.Kind != "h" && (r.Thorough() || f != c06.V2Dir)
 	res := doScenario(r, base, append(tags, "fault:none")...)
 	modes := []Mode{ModeErr, ModeCrashBefore, ModeCrashAfter, ModeTorn}
@@ -107,8 +111,9 @@ func enumerateBase(r *core.Run, base Scenario, tags ...string) {
 				// (next key; ErrNotExist survives a failing RUnlock) and would then wait for the lock they still hold
 				continue
 			}
-			if !r.Thorough() && m == ModeCrashBefore && k > 0 {
-				continue // quick tier: a crash just before call k leaves the storage a crash just after call k-1 leaves
+			if !r.Thorough() && m == ModeCrashBefore && k > 0 && (wo.isImport() || generated) {
+				// quick tier, long call lists: a crash just before call k leaves the storage a crash just after call k-1 leaves
+				continue
 			}
 			sc := base
 			sc.Mode, sc.K = m, k
